@@ -210,7 +210,7 @@ int main(int argc, char** argv) {
 
   // =========================================================================================== metric
   ctx.sub("metric");
-  ctx.bound("metric.points", T ? "9 grid latitudes x lon {0,1,90,179,179.99,181} + 4 x 9 antipodal neighbours + 8 points 1 m around (30,0) + 8 points 1 mm around (-89.9999,0) + 2 equatorial conjugate points + 2 coincident aliases + 4 latitudes x lon {0,45,135,180,-90,-179.5} + both poles twice (146 points)"
+  ctx.bound("metric.points", T ? "9 grid latitudes x lon {0,1,90,179,179.99,181} + 4 x 9 antipodal neighbours + 8 points 1 m around (30,0) + 8 points 1e-8 deg around (-89.9999,0) + 2 equatorial conjugate points + 2 coincident aliases + 4 latitudes x lon {0,45,135,180,-90,-179.5} + both poles twice (146 points)"
                                : "every second point of the thorough set + 1 coincident alias (47 points)");
   ctx.bound("metric.space", "all ordered pairs (distance matrix) and ALL ordered triples per ellipsoid and solver");
   uint64_t ntrip = 0;
